@@ -367,7 +367,7 @@ pub fn fragment_contexts() -> Vec<Frag> {
 
 pub fn themed() -> Vec<(&'static str, Vec<&'static str>)> {
     vec![
-        ("formatting", vec!["<a>", "<b>", "<i>", "<nobr>", "<p>", "<div>", "</a>", "</b>", "</i>", "</p>", "</div>", "x", "<table>", "<td>", "<button>"]),
+        ("formatting", vec!["<a>", "<b>", "<i>", "<nobr>", "<p>", "<div>", "</a>", "</b>", "</i>", "</p>", "</div>", "x", "<table>", "<td>", "<button>", "<span>"]),
         ("tables", vec!["<table>", "<tbody>", "<tr>", "<td>", "<caption>", "<colgroup>", "<col>", "</table>", "</tr>", "</td>", "x", " ", "<b>", "<input type=hidden>", "<form>", "<template>", "<!--c-->", "<select>"]),
         ("templates", vec!["<template>", "</template>", "<tr>", "<td>", "<col>", "<div>", "x", "<table>", "</table>", "<frameset>", "<body>", "<head>", "</body>", "</html>"]),
         ("foreign", vec!["<svg>", "<math>", "<foreignObject>", "<desc>", "<mi>", "<annotation-xml encoding=text/html>", "<annotation-xml>", "<p>", "<b>", "</p>", "</svg>", "</math>", "x", "\0", "<table>", "<font color=r>", "<mglyph>", "<![CDATA[x]]>", "</x>", "<svg/>", "</foreignObject>", "</mi>", "<x>"]),
@@ -445,7 +445,7 @@ pub fn jobs(tier: Tier, full: bool) -> Vec<Job> {
     // with attribute permutations, markers, foster-parented formatting
     {
         let sig6: Vec<&'static str> = vec![
-            "<a>", "<b>", "<i>", "<p>", "<div>", "</a>", "</b>", "</i>", "</p>", "</div>", "x", "<table>", "<td>", "<b id=1>", "<b id=2>", "<b class=c id=1>", "</u>", "</em>", "<li>", "</table>",
+            "<a>", "<b>", "<i>", "<p>", "<div>", "</a>", "</b>", "</i>", "</p>", "</div>", "x", "<table>", "<td>", "<b id=1>", "<b id=2>", "<b class=c id=1>", "</u>", "</em>", "<li>", "</table>", "<span>", "</span>",
         ];
         let preps: Vec<Vec<&'static str>> = vec![
             vec!["<b>", "<i>", "<u>", "<s>", "<em>"],
@@ -453,6 +453,8 @@ pub fn jobs(tier: Tier, full: bool) -> Vec<Job> {
             vec!["<a>", "<b>", "<i>", "<u>", "<s>", "<em>", "<strong>", "<p>"],
             vec!["<a>", "<div>", "<div>", "<div>", "<div>", "<div>", "<div>", "<div>", "<div>", "<div>"],
             vec!["<b>", "<p>", "<p>", "<div>", "<div>", "<div>", "<div>", "<div>", "<div>", "<div>"],
+            vec!["<b>", "<i>", "<span>"],
+            vec!["<a>", "<span>", "<b>", "<x>", "<i>"],
             vec!["<b>", "<b>", "<b>"],
             vec!["<b id=1>", "<b id=1>", "<b id=1>"],
             vec!["<b id=1 class=c>", "<b class=c id=1>", "<b id=1 class=c>"],
